@@ -3,7 +3,7 @@ import z3
 
 from mirsym.explore import PathAbort, Panic
 from mirsym.parser import Unsupported
-from mirsym.values import (Adt, LV, Ref, BoxV, PyVec, PyMap, TokStr, STRLEN, Some, NONE, Ok, Err, Tuple, UNIT,
+from mirsym.values import (Adt, LV, Ref, BoxV, PyVec, PyMap, TokStr, NumStr, STRLEN, Some, NONE, Ok, Err, Tuple, UNIT,
                            clone_val, deref, mkref, is_sym)
 from mirsym.models.core import val_eq, z_and, z_or, z_not, z_all, z_any
 from mirsym.models import extern
@@ -170,6 +170,8 @@ class SyncWorld(World):
                 i = model.eval(t.id, model_completion=True).as_long()
                 ln = model.eval(STRLEN(t.id), model_completion=True).as_long()
                 return {'id': i, 'len': ln}
+            if isinstance(t, NumStr):
+                return str(model.eval(t.v, model_completion=True).as_long()) if is_sym(t.v) else str(t.v)
             if is_sym(t):
                 return model.eval(t, model_completion=True).as_long()
             return t
@@ -229,6 +231,8 @@ class SyncWorld(World):
 
 
 def concrete_value(v, model):
+    if isinstance(v, NumStr):
+        return str(model.eval(v.v, model_completion=True).as_long()) if is_sym(v.v) else str(v.v)
     if isinstance(v, TokStr):
         return {'id': model.eval(v.id, model_completion=True).as_long(),
                 'len': model.eval(STRLEN(v.id), model_completion=True).as_long()}
